@@ -4,8 +4,8 @@
     common prefix of the two keys' bit strings ([msb_bits]: most significant bit
     of each byte first). *)
 From Coq Require Import ZArith List Bool.
-From Low Require Import Lib.Bits Lib.BitSeq Lib.Lex Lib.Bytes Lib.LexExtra_sig Model.Sigbits Spec.SigbitsSpec
-  Spec.SigbitsSpec16x Proofs.SigbitsFirstDiff Proofs.SigbitsCountPrefixes Proofs.SigbitsMeaning Proofs.SigbitsCounters Proofs.SigbitsOrder.
+From Low Require Import Lib.Bits Lib.BitSeq Lib.Lex Lib.Bytes Lib.LexExtra_sig Model.Sigbits Model.Sigbits32 Model.SigbitsQueries Spec.SigbitsSpec
+  Spec.SigbitsSpec16x Proofs.SigbitsFirstDiff Proofs.SigbitsCountPrefixes Proofs.SigbitsMeaning Proofs.SigbitsCounters Proofs.SigbitsOrder Proofs.Sigbits32Proofs Proofs.SigbitsQueriesProofs Proofs.SigbitsCounterKeys.
 Import ListNotations.
 Open Scope Z_scope.
 
@@ -99,7 +99,7 @@ Proof.
   split; [apply strict_ascb_ok; reflexivity|].
   split; [repeat constructor; vm_compute; discriminate|].
   split; [vm_compute; intuition congruence|].
-  split; [eexists; split; vm_compute; reflexivity|].
+  split; [eexists; split; [vm_compute; reflexivity|vm_compute; reflexivity]|].
   vm_compute. reflexivity.
 Qed.
 
@@ -199,6 +199,83 @@ Example C16_widening_nonvacuous :
 Proof.
   cbv zeta. split; [apply keys_okb_ok; reflexivity|].
   split; [vm_compute; intuition congruence|].
-  split; [eexists; split; vm_compute; reflexivity|].
+  split; [eexists; split; [vm_compute; reflexivity|vm_compute; reflexivity]|].
   vm_compute. intuition congruence.
+Qed.
+
+(** * The same functions with Go's int32 arithmetic explicit (Model/Sigbits32.v: an [i32] wrap at
+      [int32(first)], [int32(minl)], [maxitem-1], [d -= min], [counts[d]++], [rst[i]+counts[i]],
+      [keyEnd-1]): under Go's own limits (bit positions, number of keys and m are int32 values)
+      nothing wraps and the two C16 statements hold of that model as well *)
+Theorem C16_FirstDiffBits_int32 : forall keys,
+  keys <> [] -> keys_ok keys -> keys_i32 keys -> FirstDiffBits32 keys = Some (spec_FirstDiffBits keys).
+Proof. exact FirstDiffBits32_exact. Qed.
+Print Assumptions C16_FirstDiffBits_int32.
+
+Theorem C16_CountPrefixes_int32 : forall keys s e m,
+  keys_ok keys -> strict_asc keys -> keys_i32 keys -> zlen keys <= 2147483647 ->
+  0 <= s -> s + 2 <= e -> e <= zlen keys -> 1 <= m <= 2147483647 ->
+  exists sb, New32 keys = Some sb /\ CountPrefixes32 sb s e m = Some (spec_CountPrefixes keys s e m).
+Proof. exact CountPrefixes32_exact. Qed.
+Print Assumptions C16_CountPrefixes_int32.
+
+Example C16_int32_nonvacuous :
+  let keys := [[]; [97]; [97;0]; [97;97;97;97;97;97;97;97;97;0]; [97;97;97;97;97;97;97;97;97;1]; [98]] in
+  keys_ok keys /\ strict_asc keys /\ keys_i32 keys /\
+  FirstDiffBits32 keys = Some [0; 8; 9; 79; 6] /\
+  (exists sb, New32 keys = Some sb /\ CountPrefixes32 sb 1 6 9 = Some (6, [1; 2; 2; 3; 4; 4; 4; 4; 4])).
+Proof.
+  cbv zeta.
+  split; [apply keys_okb_ok; reflexivity|].
+  split; [apply strict_ascb_ok; reflexivity|].
+  split; [repeat constructor; vm_compute; discriminate|].
+  split; [vm_compute; reflexivity|].
+  eexists; split; [vm_compute; reflexivity|vm_compute; reflexivity].
+Qed.
+
+(** * One SigBits object, any sequence of queries (Model/SigbitsQueries.v): repeated, overlapping or
+      nested ranges in any order -- every answer is the specification's, i.e. the one a fresh
+      object would give; unbounded in the number of queries *)
+Theorem C16_queries : forall keys qs,
+  keys <> [] -> keys_ok keys -> strict_asc keys -> keys_i32 keys -> Forall (query_ok keys) qs ->
+  exists sb, New keys = Some sb /\ run_queries sb qs = Some (spec_queries keys qs).
+Proof. exact queries_exact. Qed.
+Print Assumptions C16_queries.
+
+(** the linear oracle used for key sets of more than a thousand keys (op
+    sigbits.CountPrefixes/counter-big) is the naive specification on the property's domain *)
+Theorem C16_spec_fast_agrees : forall keys s e m,
+  keys_ok keys -> strict_asc keys -> 0 <= s -> s + 1 <= e -> e <= zlen keys ->
+  spec_CountPrefixes_fast keys s e m = spec_CountPrefixes keys s e m.
+Proof. exact spec_CountPrefixes_fast_agrees. Qed.
+Print Assumptions C16_spec_fast_agrees.
+
+(** the key family of the large-set operations (prefix + w-byte big-endian counter c0 .. c0+n-1)
+    lies in the domain of [C16_CountPrefixes] for every size n: the hypotheses of that theorem are
+    satisfiable by key sets of any length *)
+Theorem C16_counter_keys_domain : forall p w c0 n,
+  bytes_ok p -> 0 <= w -> 0 <= c0 -> 0 <= n -> c0 + n <= 256 ^ w ->
+  keys_ok (counter_keys p w c0 n) /\ strict_asc (counter_keys p w c0 n) /\ zlen (counter_keys p w c0 n) = n.
+Proof. exact counter_keys_domain. Qed.
+Print Assumptions C16_counter_keys_domain.
+
+Example C16_queries_nonvacuous :
+  let keys := [[107;0;254]; [107;0;255]; [107;1;0]; [107;1;1]; [107;1;2]] in
+  counter_keys [107] 2 254 5 = keys /\
+  keys <> [] /\ keys_ok keys /\ strict_asc keys /\ keys_i32 keys /\
+  Forall (query_ok keys) [(1, 4, 3); (1, 4, 3); (0, 5, 11); (2, 5, 2)] /\
+  (exists sb, New keys = Some sb /\
+     run_queries sb [(1, 4, 3); (1, 4, 3); (0, 5, 11); (2, 5, 2)] =
+     Some [(15, [1; 2; 2]); (15, [1; 2; 2]); (15, [1; 2; 2; 2; 2; 2; 2; 2; 3; 5; 5]); (22, [1; 2])]) /\
+  spec_CountPrefixes_fast keys 0 5 11 = (15, [1; 2; 2; 2; 2; 2; 2; 2; 3; 5; 5]).
+Proof.
+  cbv zeta.
+  split; [vm_compute; reflexivity|].
+  split; [discriminate|].
+  split; [apply keys_okb_ok; reflexivity|].
+  split; [apply strict_ascb_ok; reflexivity|].
+  split; [repeat constructor; vm_compute; discriminate|].
+  split; [repeat (apply Forall_cons || apply Forall_nil); vm_compute; intuition discriminate|].
+  split; [eexists; split; [vm_compute; reflexivity|vm_compute; reflexivity]|].
+  vm_compute. reflexivity.
 Qed.
